@@ -177,6 +177,13 @@ def check_case(case):
     classes = [name, "family-" + fam["kind"], "warm" if case.get("init") else "cold"]
     y = np.asarray(case["y"], float)
     scale = float((y ** 2).sum() / max(1, y.shape[0])) if not (case["datafit"] and case["datafit"]["name"] == "Cox") else 1.
+    try:        # magnitude of the predictor terms that cancel in the loss (y = 0 and w_start != 0: F is pure round-off)
+        Xm = np.abs(np.array(case["X"], float))
+        w0m = np.abs(np.asarray(start_point(case), float))
+        if not (case["datafit"] and case["datafit"]["name"] == "QuadraticSVC") and w0m.shape[0] >= Xm.shape[1]:
+            scale += float(np.mean((Xm @ w0m[:Xm.shape[1]]) ** 2))
+    except Exception:  # noqa
+        pass
     F0 = F_of(case, start_point(case))
     if F0 == -math.inf or F0 != F0:
         # the objective itself underflows at the start (Cox: log(sum exp(-1000)) = -inf): no descent statement to judge
@@ -196,11 +203,12 @@ def check_case(case):
     w_from = start_point(case)
     for (k, Fk), wk in zip(zip(fam["budgets"], Fs), ws):
         if not leq(Fk, prev, scale):
-            # KF-PN-WILD-STEP-ASCENT needs BOTH: the implementation takes an astronomically large step (probe on the
-            # code) AND reference maths predict one from the point the ascending step starts at (family A: the previous
-            # budget's output; family B: the start) -- otherwise an overshooting line search would hide behind it
-            wild = (c01.wild_newton_step(case, None) and c01.predicted_wild_step(case, w_from)) \
-                if name in ("ProxNewton", "GroupProxNewton") else False
+            # KF-PN-WILD-STEP-ASCENT: the observed ascent is the implementation's symptom; the root cause must be
+            # confirmed by reference maths at the point the ascending step starts at (family A: the previous budget's
+            # output; family B: the start): a vanishing-curvature Newton step.  (A probe that RUNS the code to see
+            # "huge steps" let an overshooting line search -- seed C03-3 -- hide behind the finding, and misses real
+            # instances whose accepted step is merely 20x too long after the line search's halvings.)
+            wild = c01.predicted_wild_step(case, w_from) if name in ("ProxNewton", "GroupProxNewton") else False
             period = (fam["kind"] == "B" and k in (7, 13, 14)) or (fam["kind"] == "A" and s.get("max_epochs") in (7, 13, 14))
             viol.append(Viol(dict(sig, kind="objective-increase", vs=("start" if prev_lbl == "start" else "previous-budget"),
                                   at_extrapolation_budget=bool(period), wild_newton_step=wild),
